@@ -206,4 +206,120 @@ theorem inv_recv_idle (s : WState α) (P C : List α) (h : WInv s P C) (w : Nat)
             simp at this; omega
   · exact h.segs
 
+/-- `recv` by a worker that is building a segment: the batch is appended -/
+theorem inv_recv_busy (s : WState α) (P C : List α) (h : WInv s P C) (w : Nat) (wk : Worker α)
+    (b : List (α × Nat)) (rest : List (List (α × Nat))) (sg : Seg α)
+    (hc : s.channel = b :: rest) (hw : s.workers[w]? = some wk) (hseg : wk.seg = some sg) :
+    WInv { s with channel := rest,
+                  workers := s.workers.set w { wk with seg := some { sg with docs := sg.docs ++ mkDocs b } } }
+      P C := by
+  have hwmem : wk ∈ s.workers := List.mem_of_getElem? hw
+  obtain ⟨wk1, wk2, wk3⟩ := h.workers wk hwmem
+  obtain ⟨bok, bcur⟩ := wk3 sg hseg
+  have hchan : chanPairs s = b ++ rest.flatten := by simp [chanPairs, hc]
+  have hCs := h.chanSorted
+  rw [hchan] at hCs
+  refine inv_move s _ P C h ?_ ?_ ?_ ?_ ?_ ?_ ?_ ?_
+  · rfl
+  · rfl
+  · rfl
+  · apply List.perm_iff_count.mpr
+    intro p
+    have hcnt := count_flatMap_set workerPairs s.workers w wk
+      { wk with seg := some { sg with docs := sg.docs ++ mkDocs b } } hw p
+    have e1 : workerPairs wk = segPairs sg := by simp [workerPairs, hseg]
+    have e2 : workerPairs ({ wk with seg := some { sg with docs := sg.docs ++ mkDocs b } } : Worker α)
+        = segPairs sg ++ b := by simp [workerPairs, segPairs, mkDocs_pairs]
+    rw [e1, e2] at hcnt
+    simp only [allPairs, chanPairs, hc, List.count_append, List.flatten_cons] at hcnt ⊢
+    omega
+  · show (rest.flatten).Pairwise _
+    exact (List.pairwise_append.mp hCs).2.1
+  · exact h.flushedLe
+  · intro w' hw'
+    rcases List.mem_or_eq_of_mem_set hw' with hold | rfl
+    · obtain ⟨a1, a2, a3⟩ := h.workers w' hold
+      refine ⟨a1, ?_, a3⟩
+      intro del hdel p hp
+      exact a2 del hdel p (by rw [hchan]; exact List.mem_append_right _ hp)
+    · refine ⟨wk1, ?_, ?_⟩
+      · intro del hdel p hp
+        exact wk2 del hdel p (by rw [hchan]; exact List.mem_append_right _ hp)
+      · intro sg' hsg'
+        simp only [Option.some.injEq] at hsg'
+        subst hsg'
+        refine ⟨⟨bok.cur, ?_, ?_⟩, bcur⟩
+        · intro d hd
+          rcases List.mem_append.mp hd with h1 | h1
+          · exact bok.alive d h1
+          · exact (mem_mkDocs h1).2
+        · intro del hdel d hd
+          rcases List.mem_append.mp hd with h1 | h1
+          · exact bok.older del hdel d h1
+          · have hdel' : del ∈ s.log.take wk.cur := by rw [← bcur]; exact hdel
+            exact wk2 del hdel' (d.doc, d.op) (by rw [hchan]; exact List.mem_append_left _ (mem_mkDocs h1).1)
+  · exact h.segs
+
+/-- `cut`: `apply_deletes`, the finished segment waits for the segment updater -/
+theorem inv_cut (s : WState α) (P C : List α) (h : WInv s P C) (w : Nat) (wk : Worker α) (sg : Seg α)
+    (hw : s.workers[w]? = some wk) (hseg : wk.seg = some sg) :
+    WInv { s with workers := s.workers.set w { wk with seg := none },
+                  flushed := flushAt s (finalize s.log sg).cursor,
+                  inflight := s.inflight ++ [finalize s.log sg] }
+      P C := by
+  have hwmem : wk ∈ s.workers := List.mem_of_getElem? hw
+  obtain ⟨wk1, wk2, wk3⟩ := h.workers wk hwmem
+  obtain ⟨bok, bcur⟩ := wk3 sg hseg
+  refine inv_move s _ P C h ?_ ?_ ?_ ?_ ?_ ?_ ?_ ?_
+  · rfl
+  · rfl
+  · rfl
+  · apply List.perm_iff_count.mpr
+    intro p
+    have hcnt := count_flatMap_set workerPairs s.workers w wk { wk with seg := none } hw p
+    have e1 : workerPairs wk = segPairs sg := by simp [workerPairs, hseg]
+    have e2 : workerPairs ({ wk with seg := none } : Worker α) = [] := by simp [workerPairs]
+    rw [e1, e2] at hcnt
+    simp only [allPairs, chanPairs, List.count_append, List.flatMap_append, List.flatMap_cons,
+      List.flatMap_nil, List.append_nil, segPairs_finalize, List.count_nil] at hcnt ⊢
+    omega
+  · exact h.chanSorted
+  · exact flushAt_le s _ h.flushedLe
+  · intro w' hw'
+    rcases List.mem_or_eq_of_mem_set hw' with hold | rfl
+    · exact h.workers w' hold
+    · exact ⟨wk1, wk2, by intro sg' hsg'; simp at hsg'⟩
+  · intro sg' hsg'
+    simp only [List.mem_append, List.mem_singleton] at hsg'
+    rcases hsg' with ((h1 | rfl) | h1) | h1
+    · exact h.segs sg' (by simp [h1])
+    · exact finalize_segOK s.log sg h.sorted bok
+    · exact h.segs sg' (by simp [h1])
+    · exact h.segs sg' (by simp [h1])
+
+/-- `register`: the segment updater adds the oldest finished segment to the uncommitted register -/
+theorem inv_register (s : WState α) (P C : List α) (h : WInv s P C) (sg : Seg α) (rest : List (Seg α))
+    (hi : s.inflight = sg :: rest) :
+    WInv { s with inflight := rest, uncommitted := s.uncommitted ++ [sg] } P C := by
+  refine inv_move s _ P C h ?_ ?_ ?_ ?_ ?_ ?_ ?_ ?_
+  · rfl
+  · rfl
+  · rfl
+  · apply List.perm_iff_count.mpr
+    intro p
+    simp only [allPairs, chanPairs, hi, List.count_append, List.flatMap_append, List.flatMap_cons,
+      List.flatMap_nil, List.append_nil]
+    omega
+  · exact h.chanSorted
+  · exact h.flushedLe
+  · exact h.workers
+  · intro sg' hsg'
+    apply h.segs sg'
+    simp only [List.mem_append, hi, List.mem_cons, List.not_mem_nil, or_false] at hsg' ⊢
+    rcases hsg' with (h1 | h1 | h1) | h1
+    · exact Or.inl (Or.inl (Or.inr h1))
+    · exact Or.inl (Or.inr h1)
+    · exact Or.inl (Or.inl (Or.inl h1))
+    · exact Or.inr h1
+
 end TantivyModel.Writer
